@@ -554,11 +554,154 @@ def files_rule(chk, done):
             if (rel, key) in done or key.split(".")[-1].split(":")[0] in DISPLAY_ONLY or (rel, key.split(":")[0]) in ANCHOR_EXEMPT:
                 continue
             todo.append((rel, key))
+        for key in sorted(ref.get(rel, {}).get("scopes", {})):
+            if key.endswith("#log") or key.endswith("#__all__"):
+                continue
+            todo.append((rel, key))        # class-level tables and module-level objects of the anchored files
+    if todo:
+        chk.rule("FILE", "every other function of the anchored files (display methods excepted), and every name bound in their "
+                         "class and module bodies, is proven equal to its reference version (E8)")
+        for rel, key in todo:
+            same_as_reference(chk, "FILE", rel, key, "a function of a file this property is anchored in" if "#" not in key
+                              else "a class- or module-level object of a file this property is anchored in", missing_ok=True)
+    deps_rule(chk, done | set(todo))
+
+
+# DEP: what the anchored code reads directly outside the anchored files.  Found with the reference graph (cone.py, depth
+# one or two from the functions the rules open), confirmed by reading, frozen here with the reason; unit patterns are
+# fnmatch patterns over the unit names of one file.  Wave f of the seeded changes (defects placed outside the anchored
+# files on purpose) is what this table answers.
+_DATE_ARITH = ("beyond/dates/date.py", ["Date.__add__", "Date.__sub__", "Date.__lt__", "Date.__le__", "Date.__gt__", "Date.__ge__", "Date.__eq__",
+                                        "Date._convert_dt", "Date._convert_to_scale", "Date.__init__", "Date.change_scale"])
+_DATE_ARGS = ("beyond/dates/date.py", ["Date._julian_century", "Date.julian_century", "Date.change_scale", "Date._convert_to_scale", "Date._mjd",
+                                       "Date.mjd", "Date.jd", "Date.d", "Date.s", "Date.__init__", "Timescale.*", "<module>#*"])
+_FORMS = ("beyond/orbits/forms.py", ["*"])
+_SV_CONVERT = ("beyond/orbits/statevector.py", ["StateVector.frame:setter", "StateVector.form:setter", "StateVector.copy", "StateVector.__new__",
+                                                "StateVector.__array_finalize__", "StateVector.__reduce__", "StateVector.__setstate__"])
+_ORBIT_DISPATCH = ("beyond/orbits/orbit.py", ["Orbit.propagate", "Orbit.iter", "Orbit.ephemeris", "Orbit.ephem", "Orbit.__new__", "Orbit.propagator",
+                                              "Orbit.propagator:setter", "Orbit.copy", "Orbit.as_statevector"])
+_NODE = ("beyond/utils/node.py", ["Node.*", "Route.*"])
+_CONSTANTS = ("beyond/constants.py", ["*"])
+_PROPAGATORS = [(f"beyond/propagators/{m}.py", ["*.propagate", "*._propagate", "*._iter", "*.iter", "*.copy", "*.orbit", "*.orbit:setter", "*.__init__"])
+                for m in ("kepler", "j2", "sgp4", "cw", "none", "soi", "keplernum", "base")]
+DEPS = {
+    "C01": [(_CONSTANTS, "the gravitational parameter every conversion reads (`body.µ`) comes from these Body objects")],
+    "C02": [(_DATE_ARGS, "the argument of every rotation: julian centuries and days of the date in the scale the model asks for"),
+            (_NODE, "the path search between orientations"),
+            (_SV_CONVERT, "`sv.frame = x` / `copy(frame=x)` is the conversion: to cartesian, rotate and translate, back to the original form"),
+            (_FORMS, "a frame change goes through the cartesian form and back to the form the state had")],
+    "C03": [(("beyond/config.py", ["*"]), "the missing-data policy and the database name are read from this object")],
+    "C04": [(("beyond/io/ccsds/omm.py", ["*"]), "a sibling of the anchored OPM / OEM modules: reads and writes epochs with the same helpers"),
+            (("beyond/io/ccsds/tdm.py", ["*"]), "a sibling of the anchored OPM / OEM modules: reads and writes epochs with the same helpers"),
+            (("beyond/io/horizon.py", ["*"]), "reads epochs of a declared time scale"),
+            (("beyond/frames/iau1980.py", ["*sideral", "*earth_orientation", "*rate"]), "reads the date in UT1 / TT"),
+            (("beyond/frames/iau2010.py", ["*sideral", "*earth_orientation", "*rate"]), "reads the date in UT1 / TT")],
+    "C05": [(_DATE_ARITH, "the elapsed time of a propagation is a difference of Dates"),
+            (_ORBIT_DISPATCH, "`Orbit.propagate` hands the date or the timedelta to the propagator"),
+            (("beyond/propagators/base.py", ["*"]), "the analytical propagators inherit `propagate` / `iter` from it")],
+    "C06": [(_DATE_ARITH, "steps and stop conditions are Date sums and comparisons"),
+            (("beyond/orbits/man.py", ["*"]), "the maneuvers the integrator applies"),
+            (_SV_CONVERT, "every step is returned as a copy in the requested frame and form")],
+    "C07": [(_DATE_ARITH, "minutes since epoch are a difference of Dates"),
+            (_ORBIT_DISPATCH, "`Orbit.propagate` hands the date or the timedelta to the propagator"),
+            (("beyond/propagators/__init__.py", ["*"]), "the propagator registry `Tle.orbit()` resolves Sgp4 through")],
+    "C08": [(x, "a propagator whose `iter` and `propagate` have to agree") for x in _PROPAGATORS if not x[0].endswith(("keplernum.py", "base.py"))]
+           + [(_SV_CONVERT, "every yielded point is a copy of the propagated state")],
+    "C09": [(("beyond/dates/date.py", ["Date._mjd", "Date.mjd", "Date.__lt__", "Date.__le__", "Date.__gt__", "Date.__ge__", "Date.__eq__", "Date.__sub__", "Date.__add__"]),
+             "the abscissa of the interpolation and the range test"),
+            (("beyond/orbits/statevector.py", ["StateVector.__new__", "StateVector.copy"]), "the interpolated state is built from the neighbours' metadata")],
+    "C10": [(x, "a producer of the stream the listeners watch") for x in _PROPAGATORS if not x[0].endswith("base.py")]
+           + [(_ORBIT_DISPATCH, "`Orbit.iter` forwards the listeners"),
+              (("beyond/orbits/statevector.py", ["StateVector.event", "StateVector.event:setter", "StateVector.copy", "StateVector.frame:setter", "StateVector.form:setter"]),
+               "events are attached to copies of the state, the watched quantities are read in the listener's frame and form"),
+              (("beyond/dates/date.py", ["Date.__add__", "Date.__sub__", "Date.__lt__", "Date.__le__", "Date.__gt__", "Date.__ge__", "Date.__eq__"]), "the bisection works on Dates")],
+    "C11": [(("beyond/frames/frames.py", ["Frame.*", "get_frame", "<module>#ITRF", "<module>#WGS84"]), "the station frame is attached to ITRF and converts through `Frame.transform`"),
+            (_SV_CONVERT, "`copy(frame=station, form='spherical')` is the measurement"),
+            (_FORMS, "the spherical form is the measurement; the frame setter re-expresses the state in its original form")],
+    "C12": [(("beyond/dates/date.py", ["Date.__init__", "Date._convert_dt", "Date._convert_to_scale", "Date.datetime", "Date._datetime", "Date.change_scale", "Date.d", "Date.s", "Date.__add__"]),
+             "the epoch field is built from and written through these"),
+            (("beyond/orbits/forms.py", ["Form._tle_to_keplerian_mean", "Form._keplerian_mean_to_tle", "Form.__call__", "<module>#TLE", "get_form", "Form.__init__"]),
+             "`from_orbit` converts to the TLE form"),
+            (("beyond/orbits/orbit.py", ["Orbit.__new__", "Orbit.propagator:setter"]), "`Tle.orbit()` builds the Orbit"),
+            (("beyond/orbits/statevector.py", ["StateVector.__new__", "StateVector.copy", "StateVector.form:setter", "StateVector.frame:setter"]), "`Tle.orbit()` / `from_orbit`")],
+    "C13": [(("beyond/orbits/ephem.py", ["*"]), "the OEM object: settings and points have to survive the round trip"),
+            (("beyond/orbits/cov.py", ["*"]), "the covariance attached to the states"),
+            (("beyond/orbits/man.py", ["*.__init__", "*.__new__", "*.check"]), "the maneuvers an OPM carries"),
+            (("beyond/utils/measures.py", ["*"]), "the measures a TDM carries"),
+            (("beyond/orbits/statevector.py", ["StateVector.__new__", "StateVector.copy", "StateVector.cov*", "StateVector.maneuvers*", "StateVector.form:setter", "StateVector.frame:setter"]),
+             "what the readers build and the writers convert"),
+            (("beyond/orbits/orbit.py", ["Orbit.__new__", "Orbit.propagator*"]), "what the readers build"),
+            (("beyond/dates/date.py", ["Date.strptime", "Date.__init__", "Date._convert_dt", "Date.change_scale", "Date.datetime", "Date._datetime"]), "epochs are parsed and printed through these")],
+    "C14": [(_FORMS, "the covariance builds its local frames from a cartesian copy of the state"),
+            (("beyond/frames/frames.py", ["Frame.transform", "get_frame"]), "the rotation applied to the covariance")],
+    "C15": [(_FORMS, "names and aliases are resolved through `Form.alt` and the forms' parameter lists")],
+    "C16": [(_DATE_ARITH, "the elapsed time is a difference of Dates, maneuvers are found by comparing Dates"),
+            (_ORBIT_DISPATCH, "`Orbit.propagate` / `Orbit.iter` hand over to the propagator"),
+            (_SV_CONVERT, "the propagated state is a copy of the initial one (it carries the propagator and the frame)")],
+    "C17": [(("beyond/orbits/statevector.py", ["Infos.*", "StateVector.infos", "StateVector.copy", "StateVector.frame:setter", "StateVector.form:setter"]),
+             "`dkep2dv` reads speed, mean motion and flight-path quantities from `orb.infos`")],
+    "C18": [(_DATE_ARGS, "the kernels and the analytical series are evaluated at the date in TDB / TT"),
+            (_NODE, "the path search between centres"),
+            (_SV_CONVERT, "`copy(frame=...)` is how a state changes centre"),
+            (_FORMS, "a frame change goes through the cartesian form and back to the form the state had, with the new centre's µ")],
+    "C19": [(_FORMS, "the inputs are converted to the form each helper needs"),
+            (("beyond/orbits/statevector.py", ["Infos.*", "StateVector.infos", "StateVector.copy", "StateVector.frame:setter", "StateVector.form:setter"]), "period, mean motion and conversions of the inputs"),
+            (_CONSTANTS, "radius, J2 and µ of the central body"),
+            (("beyond/dates/date.py", ["Date.__sub__", "Date.__add__"]), "the time of flight is a difference of Dates")],
+    "C20": [(_SV_CONVERT, "`sv.frame = x` / `copy(frame=x)` is the conversion the routes serve"),
+            (_FORMS, "the frame setter restores the original form, which reads the new frame's central body")],
+}
+
+
+def deps_rule(chk, done):
+    """DEP: the direct dependencies of the anchored code outside the anchored files (table above) are proven equal to
+    their reference versions.  The report names the reference path from the anchored code to the changed unit."""
+    import fnmatch
+    import os as _os
+    if _os.environ.get("BVSTATIC_NO_DEPS"):
+        return
+    from ..equiv import reference_units, same_as_reference, reference, unit_fp, module_fingerprints
+    table = DEPS.get(chk.prop, [])
+    if not table:
+        return
+    files = set(anchored_files().get(chk.prop, []))
+    todo, seen = [], set(done)
+    for (rel, patterns), why in table:
+        if rel not in reference()["modules"]:
+            from ..model import AnalysisError
+            raise AnalysisError(f"dependency module {rel} has no reference fingerprints")
+        units = reference_units(rel)
+        n = 0
+        for key in units:
+            if (rel, key) in seen or rel in files:
+                continue
+            bare = key.split(".")[-1].split(":")[0]
+            if bare in DISPLAY_ONLY or key.endswith("#log") or key.endswith("#__all__") or (rel, key.split(":")[0]) in ANCHOR_EXEMPT:
+                continue
+            if any(fnmatch.fnmatchcase(key, p) for p in patterns):
+                seen.add((rel, key))
+                todo.append((rel, key, why))
+                n += 1
     if not todo:
         return
-    chk.rule("FILE", "every other function of the anchored files (display methods excepted) is proven equal to its reference version (E8)")
-    from ..equiv import module_fingerprints
-    for rel, key in todo:
-        if key not in module_fingerprints(chk.repo, rel)["funcs"]:
-            continue            # removed: left to the rules that anchor it (and to E8's helper accounting)
-        same_as_reference(chk, "FILE", rel, key, "a function of a file this property is anchored in")
+    chk.rule("DEP", "what the anchored code reads directly outside the anchored files is proven equal to its reference version (E8)")
+    graph = []
+
+    def path_to(rel, key):
+        try:
+            if not graph:
+                from .. import cone
+                g = cone.Graph(chk.repo)
+                graph.extend([g, g.cone({u for u in g.units if u[0] in files})])
+            g, c = graph
+            if (rel, key) not in c:
+                return ""
+            return "; reached through " + " -> ".join(f"{u[0].rsplit('/', 1)[-1]}::{u[1]}" + (f" (line {l})" if l else "") for u, l in g.path(c, (rel, key)))
+        except Exception as e:      # the path is an explanation, not the verdict
+            return f"; reference path not computed ({type(e).__name__})"
+    refm = reference()["modules"]
+    for rel, key, why in todo:
+        cur = unit_fp(module_fingerprints(chk.repo, rel), key) if rel in chk.repo.modules else None
+        if cur is not None and cur != unit_fp(refm[rel], key):
+            why = why + path_to(rel, key)
+        same_as_reference(chk, "DEP", rel, key, why, missing_ok=True)
